@@ -229,6 +229,68 @@ func suiteStrings(rn *runner, r *rng, tier string) {
 		rn.rep.Distribution["two-escapes/exhaustive"]++
 		rn.seen["two-escapes/exhaustive"] = true
 	}
+	// an escape right where stage 1 closes one index buffer and opens the next (1408 indexes into the document): the
+	// odd-backslash carry crosses from the last 64-byte block of one round into the first of the next. Expected bytes by
+	// construction; every alignment of the block boundary inside the string
+	{
+		bad := 0
+		ns := []int{701, 702, 703, 704, 705}
+		if thorough {
+			ns = []int{690, 695, 700, 701, 702, 703, 704, 705, 706, 710, 1405, 1406, 1407, 1408}
+		}
+		for _, n := range ns {
+			for pad := 0; pad < 64 && bad < 3; pad++ {
+				for k := 0; k < 64 && bad < 3; k++ {
+					esc, dec := "\\\"", "\""
+					if (pad+k)%3 == 1 {
+						esc, dec = "\\\\", "\\"
+					}
+					body := strings.Repeat("a", k) + esc + "b"
+					want := strings.Repeat("a", k) + dec + "b"
+					text := "[" + strings.Repeat(" ", pad) + strings.Repeat("1,", n) + "\"" + body + "\"," + strings.Repeat("1,", 60) + "1]"
+					cp := (pad+k)%2 == 0
+					pj, err := simdjson.Parse([]byte(text), nil, simdjson.WithCopyStrings(cp))
+					got, ok := "", false
+					if err == nil {
+						func() {
+							defer func() { recover() }()
+							it := pj.Iter()
+							it.AdvanceInto()
+							it.AdvanceInto()
+							for {
+								t := it.AdvanceInto()
+								if t == simdjson.TagString {
+									if sb, e := it.StringBytes(); e == nil {
+										got, ok = string(sb), true
+									}
+									return
+								}
+								if t == simdjson.TagEnd || t == simdjson.TagArrayEnd {
+									return
+								}
+							}
+						}()
+					}
+					rn.rep.Evaluations++
+					if !ok || got != want {
+						bad++
+						cpS := "0"
+						if cp {
+							cpS = "1"
+						}
+						impl := "rejected or unreadable"
+						if ok {
+							impl = hx([]byte(got))
+						}
+						rn.disagree(disagreement{Kind: "spec", Ops: []string{"parse p 0 " + cpS + " " + hx([]byte(text)), "owalk p"}, At: 0, Impl: impl,
+							Other: "the string " + hx([]byte(want)), Note: fmt.Sprintf("strings: escape %d bytes into a string that starts after %d numbers and %d blanks (index-buffer boundary)", k, n, pad)})
+					}
+				}
+			}
+		}
+		rn.rep.Distribution["escape-at-index-buffer-boundary/exhaustive"]++
+		rn.seen["escape-at-index-buffer-boundary/exhaustive"] = true
+	}
 	// boundaries of the UTF-8 length classes and of the surrogate range, both hex cases, in every run
 	for _, cu := range []int{0, 1, 0x1f, 0x20, 0x22, 0x5c, 0x7e, 0x7f, 0x80, 0x81, 0xff, 0x100, 0x7fe, 0x7ff, 0x800, 0x801, 0xfff, 0x1000,
 		0xd7fe, 0xd7ff, 0xe000, 0xe001, 0xfffd, 0xfffe, 0xffff} {
